@@ -582,3 +582,22 @@ Proof.
   - rewrite app_nil_r. apply clean_utf8_valid_id_lemma. exact V.
   - apply clean_utf8_partial_lemma; assumption.
 Qed.
+
+(* ---------- the encoding is uniquely decodable ---------- *)
+
+Lemma encode_all_injective : forall cs cs', Forall scalar cs -> Forall scalar cs' ->
+  utf8_encode_all cs = utf8_encode_all cs' -> cs = cs'.
+Proof.
+  induction cs as [|c cs IH]; intros cs' H H' E.
+  - destruct cs' as [|c' cs']; [reflexivity|]. exfalso.
+    rewrite encode_all_cons in E. pose proof (encode_length c') as L.
+    destruct (utf8_encode c'); [cbn [length] in L; lia|discriminate E].
+  - destruct cs' as [|c' cs'].
+    + exfalso. rewrite encode_all_cons in E. pose proof (encode_length c) as L.
+      destruct (utf8_encode c); [cbn [length] in L; lia|discriminate E].
+    + inversion H as [|? ? Hc Hcs]; subst. inversion H' as [|? ? Hc' Hcs']; subst.
+      rewrite !encode_all_cons in E.
+      pose proof (decode_encode c (utf8_encode_all cs) Hc) as D. rewrite E in D.
+      rewrite (decode_encode c' (utf8_encode_all cs') Hc') in D. injection D as -> _.
+      apply app_inv_head in E. f_equal. apply IH; assumption.
+Qed.
